@@ -26,9 +26,12 @@ theorem to_c_ident_escapes_safe : ∀ e ∈ escapeTable, e.2 ∉ cKeywords ∧ e
   have := List.all_eq_true.mp escapes_safe_all e he
   simpa using this
 
-/-- **`to_c_ident` never yields a reserved word** — for every input string (upper-case words, any
-number of words, any characters): the table is consulted with the snake-cased name and every
-reserved word of the dialect (`CIdentSpec.cKeywords`, incl. `restrict` and `typeof`) has an arm.
+/-- **`to_c_ident` never yields a word of `CIdentSpec.cKeywords`** — for every input string (upper-case
+words, any number of words, any characters): the table is consulted with the snake-cased name and
+every word of that list (the 34 lower-case C17 keywords, `asm`, `typeof`, and `bool`/`true`/`false` of
+`<stdbool.h>`) has an arm.  The claim is relative to that list: other identifiers that break a
+compile (typedef names such as `int8_t`, fixed locals such as `ret_area`) are outside it and are
+known findings.
 (Before /repo 89692d8 this was false: `restrict`/`typeof` had no arm and `INT` became `int`.) -/
 theorem to_c_ident_not_keyword (name : List Char) : toCIdent name ∉ cKeywords :=
   toCIdent_not_keyword name
@@ -42,8 +45,11 @@ theorem to_c_ident_uppercase_keyword :
 example : toCIdent "static".toList = "static_".toList ∧ toCIdent "my-field".toList = "my_field".toList ∧
     simpleTail true "my-field".toList = true := by decide +kernel
 
-/-- **Names are injective within a kind and namespace.**  Two different lower-case kebab names give
-different typedef names, different function names, different free-helper names. -/
+/-- **Names are injective within one kind and one fixed namespace**, on lower-case kebab names
+(letters, digits, `-`; every word non-empty): two different such names give different typedef names,
+different function names, different free-helper names.  Nothing is claimed across namespaces (see
+the known finding for `a-b`/`c` vs `a`/`b-c`), across kinds (`c_names_cross_kind_collision`) or for
+upper-case words. -/
 theorem c_names_injective (ns a b : List Char) (ha : simpleTail true a = true) (hb : simpleTail true b = true)
     (ka : kebab a) (kb : kebab b) :
     (cTypeName ns a = cTypeName ns b → a = b) ∧ (cFuncName ns a = cFuncName ns b → a = b) ∧
